@@ -64,15 +64,15 @@ def correspondence(ctx):
 
 def _one(case):
     s, tol = case
-    t = time.time()
+    t = time.process_time()             # CPU time: the verdict must not depend on the load of the machine
     try:
         line, soup, exc = common.impl_parse(s, tol)
     except RecursionError:
         return ('recursion', 'RecursionError', 0.0)
-    dt = time.time() - t
+    dt = time.process_time() - t
     cls = line.split(' ')[0] if line.startswith('TREE') else line
     if cls == 'ERR HANG':
-        return ('no-termination', 'no answer within %d s' % common.IMPL_TIME_LIMIT, dt)
+        return ('no-termination', 'no answer within %d s of CPU time' % common.IMPL_TIME_LIMIT, dt)
     if cls not in ALLOWED:
         return ('internal-error', '%s: %s' % (type(exc).__name__, str(exc)[:80]), dt)
     if dt > TIME_LIMIT:
@@ -105,7 +105,7 @@ def oracle(ctx, seeds, scale):
             r.fail(key, what, input=s, tol=t)
     r.stats['slowest_parse_s'] = round(worst, 2)
     r.sample({'input': '\\begin{a}\\x{', 'tol': 0, 'class': 'ERR TYPE'})
-    r.rule = ('result class in {tree, EOFError, TypeError, AssertionError} and wall time < %.0f s, tolerance 0 and 1: '
+    r.rule = ('result class in {tree, EOFError, TypeError, AssertionError} and CPU time < %.0f s, tolerance 0 and 1: '
               'exhaustive short/random strings over the token-kind alphabet with NUL/DEL, all strings of length <= %d over one '
               'representative per character category, repository and generated documents with prefixes, single deletions, '
               'insertions and transpositions, nesting depth up to 40' % (TIME_LIMIT, ctx.pick(2, 3)))
